@@ -469,7 +469,23 @@ pub fn rand_calls(r: &mut Rng, srcs: &[Vec<u8>], base: Option<&Vec<u8>>, misuse:
                 let mut o = rand_opts(r, false);
                 o.pw = None;
                 calls.push(format!("sx,{},{}", hex(b"x"), o.tok()));
-                let bad: Vec<u8> = match r.below(4) { 0 => vec![1, 0, 0, 0], 1 => vec![0x55, 0x54, 1, 0, 9], 2 => vec![0xfe, 0xca, 9, 0, 1], _ => vec![0xfe] };
+                let bad: Vec<u8> = match r.below(7) {
+                    0 => vec![1, 0, 0, 0], 1 => vec![0x55, 0x54, 1, 0, 9], 2 => vec![0xfe, 0xca, 9, 0, 1], 3 => vec![0xfe],
+                    4 | 5 => {
+                        // a well-formed record whose header ID is one of the reserved ones (the whole table, and the
+                        // IDs up to 31): only the ID makes it unacceptable
+                        let id: u16 = if r.chance(1, 5) { r.below(32) as u16 } else { *r.pick(&super::align::RESERVED) };
+                        let n = r.below(6) as usize;
+                        let mut v = vec![id as u8, (id >> 8) as u8, n as u8, 0];
+                        v.extend(std::iter::repeat(0xab).take(n));
+                        v
+                    }
+                    _ => {
+                        // a valid record followed by a reserved one
+                        let id = *r.pick(&super::align::RESERVED);
+                        vec![0xfe, 0xca, 2, 0, 7, 7, id as u8, (id >> 8) as u8, 0, 0]
+                    }
+                };
                 calls.push(format!("w,{}", hex(&bad)));
                 calls.push("ex".into());
             }
